@@ -106,6 +106,17 @@ type Diff struct {
 	Detail string
 	// FieldKind: model kind of the field at which the difference sits
 	FieldKind string
+	// ElemKind: for a list / map field, the resolved kind of its elements
+	ElemKind string
+}
+
+// elemKindOf gives the resolved kind of the elements of a list / map type.
+func elemKindOf(m *Model, t T) string {
+	rt := m.Resolve(t)
+	if (rt.Kind != KArray && rt.Kind != KMap) || rt.Elem == nil {
+		return ""
+	}
+	return m.Resolve(*rt.Elem).Kind
 }
 
 // CompareRoundTrip compares an original document with its re-encoding,
@@ -190,7 +201,7 @@ func cmpTyped(m *Model, t T, orig, got any, path string, out *[]Diff) {
 							cls = "optional-dropped"
 						}
 					}
-					*out = append(*out, Diff{Path: fp, Class: cls, Detail: fmt.Sprintf("%s is in the original but not in the re-encoding", short(ov)), FieldKind: f.Type.Kind})
+					*out = append(*out, Diff{Path: fp, Class: cls, Detail: fmt.Sprintf("%s is in the original but not in the re-encoding", short(ov)), FieldKind: f.Type.Kind, ElemKind: elemKindOf(m, f.Type)})
 				case !oin && gin:
 					cls := "extra"
 					if rt := m.Resolve(f.Type); f.Type.Const != nil || rt.Const != nil || (rt.Kind == KEnum && len(rt.Members) == 1) || onlyConstants(m, rt) {
@@ -261,6 +272,6 @@ func cmpTyped(m *Model, t T, orig, got any, path string, out *[]Diff) {
 		} else if _, isMap := got.(map[string]any); isMap && orig == nil && t.Kind == KStruct {
 			cls = "null-becomes-object"
 		}
-		*out = append(*out, Diff{Path: path, Class: cls, Detail: d, FieldKind: t.Kind})
+		*out = append(*out, Diff{Path: path, Class: cls, Detail: d, FieldKind: t.Kind, ElemKind: elemKindOf(m, t)})
 	}
 }
